@@ -17,6 +17,7 @@ import (
 	"strconv"
 	"strings"
 	"sync"
+	"verif/harness/internal/fault"
 
 	"github.com/fluhus/biostuff/formats/bed"
 	"github.com/fluhus/biostuff/formats/fasta"
@@ -633,6 +634,25 @@ func renderNewick(ts gen.TreeSpec) string {
 	rec(0)
 	b.WriteByte(';')
 	return b.String()
+}
+
+// writeAfterFailure: a Write whose destination failed half-way leaves nothing behind - the next
+// Write of the record to a healthy destination produces the same bytes as before.
+func writeAfterFailure(write func(io.Writer) error, want []byte) error {
+	if len(want) == 0 {
+		return nil
+	}
+	lw := &fault.LimitedWriter{Limit: len(want) / 2, Short: len(want)%2 == 1}
+	catch(func() { write(lw) })
+	var w bytes.Buffer
+	var err error
+	if p := catch(func() { err = write(&w) }); p != nil || err != nil {
+		return fmt.Errorf("Write to a healthy buffer, after a Write whose destination failed after %d bytes: panic=%v err=%v", len(want)/2, p, err)
+	}
+	if !bytes.Equal(w.Bytes(), want) {
+		return fmt.Errorf("after a Write whose destination failed after %d bytes, the next Write to a healthy buffer produces %s instead of %s", len(want)/2, gen.Abbrev(w.Bytes()), gen.Abbrev(want))
+	}
+	return nil
 }
 
 // marshalKeeper keeps the slices returned by MarshalText and later verifies that they were
